@@ -1452,6 +1452,7 @@ func gridLayout(context *layoutContext, box_ Box, bottomSpace pr.Float, skipStac
 				if pageIsEmpty {
 					continue
 				}
+				context.leaveBlockFormattingContext()
 				return nil, blockLayout{nil, nil, tree.PageBreak{Break: "any"}, false}
 			}
 			resumeRow = i - 1
